@@ -313,6 +313,80 @@ def fromBytes (r : ClassRow) (b : Bytes) : Except Err Bytes :=
   | .ok _ => .error .notImplemented
   | .error e => .error e
 
+/-! ### the serialiser as a WRITE PROGRAM run on a holder (what makes the routes agree)
+
+  Every `to_file_map` is a sequence of `fileobj.write(bytes)` and `seek_tell(fileobj, offset, write0=True)`
+  (volumeutils.py:839-866) on the object `ImageOpener` returned for the holder.  Two kinds of object:
+  random access (`BytesIO` of `to_bytes/to_stream`, a plain file opened `'wb'`): `seek` moves the position, a
+  later write pads the gap with zeros, overwrites what lies under it; and sequential writers (gzip: a forward
+  `seek` writes zeros, a backward one raises; bz2 / zstd: `seek` raises and `seek_tell` writes the zeros
+  itself, or raises for a backward move). -/
+inductive WOp where
+  | write (b : Bytes)
+  | seekTo (off : Nat)
+  deriving Repr, DecidableEq
+
+def zeros (n : Nat) : Bytes := List.replicate n 0
+
+structure RA where
+  buf : Bytes
+  pos : Nat
+  deriving Repr, DecidableEq
+
+def raWrite (s : RA) (b : Bytes) : RA :=
+  if b.isEmpty then s
+  else ⟨s.buf.take s.pos ++ zeros (s.pos - s.buf.length) ++ b ++ s.buf.drop (s.pos + b.length), s.pos + b.length⟩
+
+def raStep (s : RA) : WOp → RA
+  | .write b => raWrite s b
+  | .seekTo o => { s with pos := o }
+
+def raFinal (s : RA) (p : List WOp) : RA := p.foldl raStep s
+def raRun (p : List WOp) : Bytes := (raFinal ⟨[], 0⟩ p).buf
+
+def seqStep (out : Bytes) : WOp → Option Bytes
+  | .write b => some (out ++ b)
+  | .seekTo o => if out.length ≤ o then some (out ++ zeros (o - out.length)) else none
+
+def seqFrom (out : Bytes) : List WOp → Option Bytes
+  | [] => some out
+  | op :: r => match seqStep out op with
+    | some o => seqFrom o r
+    | none => none
+def seqRun (p : List WOp) : Option Bytes := seqFrom [] p
+
+def mono : Nat → List WOp → Bool
+  | _, [] => true
+  | p, .write b :: r => mono (p + b.length) r
+  | p, .seekTo o :: r => decide (p ≤ o) && mono o r
+
+
+/-- no dangling forward seek: the final position is the end of what was written -/
+def complete (p : List WOp) : Bool :=
+  let s := raFinal ⟨[], 0⟩ p
+  s.pos == s.buf.length
+
+/-- the logical (uncompressed) bytes that end up under a holder opened with codec `c` -/
+def holderBytes (c : Nat) (p : List WOp) : Option Bytes := if c = 0 then some (raRun p) else seqRun p
+
+/-- `to_bytes()`: the program on a fresh `BytesIO()`, then `getvalue()` -/
+def toBytesP (r : ClassRow) (p : List WOp) : Except Err Bytes :=
+  match filemapFromIobase r with
+  | .ok [(_, _)] => .ok (raRun p)
+  | .ok _ => .error .notImplemented
+  | .error e => .error e
+
+/-- `to_filename(name)`: the program on `ImageOpener(name, 'wb')`; a failing seek is an `OSError` -/
+def toFilenameP (cd : Codecs) (keys : List (Str × Nat)) (icase : Bool) (r : ClassRow) (p : List WOp)
+    (w : World) (fn : Str) : Except Err World :=
+  match filespecToFileMap r fn with
+  | some (.ok [(_, n)]) =>
+      match holderBytes (openerCodec keys icase n) p with
+      | some b => .ok { w with fs := fsWrite w.fs n (cd.comp (openerCodec keys icase n) b) }
+      | none => .error .imageFile
+  | some (.error e) => .error e
+  | _ => .error .notImplemented
+
 /-! ### histories over ONE process (several saves / loads / plain `Opener` uses in a row)
 
   The real code keeps NO process-wide state between calls: `Opener._get_opener_argnames` scans the
